@@ -658,3 +658,14 @@ def replay(w, rec):
     item = w["show"]["item"]
     item["terms"] = [tuple(t[:3]) + ((tuple(t[3]) if isinstance(t[3], list) else t[3]),) for t in item["terms"]]
     run_item(rec, random.Random(0), item)
+
+
+# workloads added after the seventh round of seeded changes (DESIGN section 9): part of the rule of this check
+_RULE_ADDENDUM = 'components that are exactly -0.0 (finite, paths agree); summed vector expressions with poles of both signs nested as factor / base'
+_info_base = info
+
+
+def info(tier):  # noqa: F811
+    d = _info_base(tier)
+    d["rule"] = d["rule"] + "; " + _RULE_ADDENDUM
+    return d
